@@ -59,7 +59,19 @@ Proof.
   - exact (return_enabled_at_deadline drain gap ls s t0 Hr Hs Hn).
 Qed.
 
+(* The outcome predicate the correspondence check runs (extracted [drain_check]) accepts, at zero tolerance,
+   every outcome of the model: whenever Shutdown returns in a schedule, the remaining durations at its call, the
+   result, the elapsed time and the completion flags pass the check.  (The check's 40 ms band and 150 ms slack
+   only widen the accepted set.) *)
+Theorem C14_check_sound : forall drain gap ls s l s' t0,
+  run (dstep drain gap) dinit ls = Some s -> sd_start s = Some t0 ->
+  dstep drain gap s l = Some s' -> (l = DShutRetOk \/ l = DShutRetTimeout) ->
+  drain_check drain gap 0 0 (map q_stop (reqs s'))
+              (match l with DShutRetOk => true | _ => false end) (now s' - t0) (map q_done (reqs s')) = true.
+Proof. exact drain_check_sound. Qed.
+
 Print Assumptions C14_no_new.
+Print Assumptions C14_check_sound.
 Print Assumptions C14_complete.
 Print Assumptions C14_prompt.
 Print Assumptions C14_bounded.
